@@ -759,6 +759,7 @@ async fn run_async(sc: &Scenario, roots: Vec<PathBuf>) -> Trace {
         let mut ord: HashMap<(usize, usize), u32> = HashMap::new();
         let mut ind_fired: Vec<bool> = vec![false; sc.actions.len()];
         let mut blackout_hits: HashMap<usize, u32> = HashMap::new();
+        let mut ind_open = true;
         // puts first: a user command scheduled for the same instant follows the Put it refers to
         for (idx, p) in sc.puts.iter().enumerate() {
             heap.push(std::cmp::Reverse((p.at_ms, seq, Event::IssuePut { idx })));
@@ -866,8 +867,9 @@ async fn run_async(sc: &Scenario, roots: Vec<PathBuf>) -> Trace {
                     }
                     g.pending_events = heap.len();
                 }
-                evt = ind_evt_rx.recv() => {
-                    let Some((entity, id, kind)) = evt else { continue };
+                evt = ind_evt_rx.recv(), if ind_open => {
+                    // a closed channel (every daemon and transaction gone) must not turn this loop into a busy loop
+                    let Some((entity, id, kind)) = evt else { ind_open = false; continue };
                     let t = now_ms(t0);
                     for (aidx, a) in sc.actions.iter().enumerate() {
                         if let Trigger::OnIndication { entity: e, put, kind: k, delay_ms } = &a.trigger {
